@@ -67,7 +67,7 @@ func (e *Engine) lookupType(q string) types.Type {
 	}
 	pkg, name := q[:i], q[i+1:]
 	if !strings.HasPrefix(pkg, modPath) {
-		if pkg == "" || pkg == "." {
+		if pkg == "" || pkg == "." || pkg == "poly" {
 			pkg = modPath
 		} else {
 			pkg = modPath + "/" + pkg
